@@ -102,6 +102,7 @@ type edit struct {
 	I    int      `json:"i,omitempty"` // swap-distinct: the two positions
 	J    int      `json:"j,omitempty"`
 	Key  string   `json:"key,omitempty"` // add-member, add-sibling-member: the name of the new member
+	Dom  string   `json:"dom,omitempty"` // set-leaf: where the new value (Now) comes from (domain.go)
 	val  *c07.JV  // add-sibling-member: its value (a copy of the sibling's)
 }
 
@@ -396,6 +397,9 @@ func apply(doc *c07.JV, e *edit) *c07.JV {
 			x.B = !x.B
 			e.Now = fmt.Sprint(x.B)
 		}
+	case "set-leaf": // another valid member of the leaf's own domain (domain.go)
+		x := at(d, e.Path)
+		x.S = e.Now
 	case "negate-leaf":
 		x := at(d, e.Path)
 		e.Was = fmt.Sprint(x.F)
@@ -528,6 +532,7 @@ type outcome struct {
 	newDocSame   bool   // the recalculated document has the base's content
 	marshalled   string // json.Marshal(e.Document) before Calculate
 	reload       string // "" or how the verdict differs when the text is read into a value that held the genuine envelope before
+	mutated      string // "" or how json.Marshal(env) differs before and after Envelope.Validate (validating is not an edit)
 }
 
 func present(b *base, text string, recalc bool) (o outcome) {
@@ -537,7 +542,11 @@ func present(b *base, text string, recalc bool) (o outcome) {
 			o.class, o.detail = "parse-error", err.Error()
 			return
 		}
+		before, berr := json.Marshal(env)
 		err := env.Validate()
+		if after, aerr := json.Marshal(env); berr == nil && aerr == nil && !bytes.Equal(before, after) {
+			o.mutated = firstDifference(string(before), string(after))
+		}
 		var ge *gobl.Error
 		switch {
 		case err == nil:
@@ -615,6 +624,26 @@ func present(b *base, text string, recalc bool) (o outcome) {
 		}
 	}
 	return
+}
+
+// firstDifference: the place where two texts part, with a little of what follows in each.
+func firstDifference(a, b string) string {
+	i := 0
+	for i < len(a) && i < len(b) && a[i] == b[i] {
+		i++
+	}
+	from := i - 40
+	if from < 0 {
+		from = 0
+	}
+	cut := func(s string) string {
+		to := i + 40
+		if to > len(s) {
+			to = len(s)
+		}
+		return s[from:to]
+	}
+	return fmt.Sprintf("before Validate …%s… after …%s…", cut(a), cut(b))
 }
 
 func member(v *c07.JV, k string) (*c07.JV, int) {
@@ -753,6 +782,8 @@ type job struct {
 	b *base
 	e *edit
 	t string
+	// an edit of a member that calculation derives or of an `ext` member: never sampled away (domain.go)
+	must bool
 }
 
 // Run is the C08 sweep.
@@ -893,6 +924,8 @@ func Run(c *core.Ctx) int {
 	var jobs []job
 	total := 0
 	var derivedJobs []job
+	doms := buildDomains(bases[:nExamples])
+	mustSet := map[*edit]bool{}
 	for _, b := range bases {
 		es := enumerate(b.doc)
 		if b.focus != nil {
@@ -917,6 +950,25 @@ func Run(c *core.Ctx) int {
 			}
 			continue
 		}
+		// the members calculation derives (source of the example against its output) are always swept
+		derivedAt := map[string]bool{}
+		if src := sourceOf(c.Repo, b.name); src != nil {
+			derivedPaths(b.doc, src, nil, derivedAt)
+			c.Count("base:with_source", 1)
+		}
+		nMust := 0
+		for _, e := range es {
+			if mustSweep(b, derivedAt, e, nMust) {
+				mustSet[e] = true
+			}
+			if derivedAt[strings.Join(e.Path, "/")] && (e.Kind == "alter-leaf" || e.Kind == "remove-member") {
+				nMust++
+			}
+		}
+		// every string leaf replaced by other valid members of its own domain
+		des := doms.domainEdits(c, b)
+		c.Count("edits:domain", int64(len(des)))
+		es = append(es, des...)
 		// plus one unknown member added at the top of the document and in every object one level down
 		es = append(es, &edit{Kind: "add-unknown-member", Path: nil})
 		for _, m := range b.doc.M {
@@ -926,10 +978,11 @@ func Run(c *core.Ctx) int {
 		}
 		total += len(es)
 		for _, e := range es {
-			jobs = append(jobs, job{b: b, e: e})
+			jobs = append(jobs, job{b: b, e: e, must: mustSet[e]})
 		}
 	}
 	c.Count("edits:enumerated", int64(total))
+	c.Count("edits:derived_or_ext_member_always_swept", int64(len(mustSet)))
 	for i, step := 0, len(derivedJobs)/c.Pick(3000, 40000)+1; i < len(derivedJobs); i += step {
 		jobs = append(jobs, derivedJobs[i])
 	}
@@ -942,7 +995,7 @@ func Run(c *core.Ctx) int {
 			for _, j := range jobs {
 				// also every edit of the small generated bases and every sign / line-ending edit
 				if (len(j.e.Path) <= 1 && j.b.focus == nil) || strings.HasPrefix(j.b.name, "generated/") || j.b.focus != nil || (typedKind(j.e.Kind) && j.e.Kind != "trailing-zero") || j.e.Kind == "negate-leaf" || j.e.Kind == "swap-cr-lf" ||
-					j.e.Kind == "swap-distinct" || j.e.Kind == "respell-float" || j.e.Kind == "unicode-nfd" || j.e.Kind == "unicode-nfc" || j.e.Kind == "add-empty-member" || j.e.Kind == "add-null-sibling-member" || len(keep) < want {
+					j.e.Kind == "swap-distinct" || j.e.Kind == "respell-float" || j.e.Kind == "unicode-nfd" || j.e.Kind == "unicode-nfc" || j.e.Kind == "add-empty-member" || j.e.Kind == "add-null-sibling-member" || j.must || j.e.Kind == "set-leaf" || len(keep) < want {
 					keep = append(keep, j)
 				}
 			}
@@ -1281,6 +1334,10 @@ func judgeOne(c *core.Ctx, b *base, ec *ecase, o outcome) {
 	}
 	e := ec.Edit
 	key := b.name + " " + e.Kind + " " + strings.Join(e.Path, "/")
+	if e.Kind == "set-leaf" {
+		key += " " + e.Now
+		c.Count("edit:set-leaf:"+strings.SplitN(e.Dom, ":", 2)[0], 1)
+	}
 	c.Eval(key, true)
 	c.Count("edit:"+e.Kind, 1)
 	where := fmt.Sprintf("%s: %s at doc/%s", b.name, e.Kind, strings.Join(e.Path, "/"))
@@ -1306,6 +1363,12 @@ func judgeOne(c *core.Ctx, b *base, ec *ecase, o outcome) {
 		return
 	}
 	c.Count("outcome:"+strings.SplitN(o.class, ":", 2)[0], 1)
+	if o.mutated != "" {
+		// not what C08 states (C04 does: validating never changes an envelope; harness/props/c04 judges it on
+		// edited envelopes too): counted here, and part of the message when the verdict is wrong
+		c.Count("validate_changed_the_envelope", 1)
+		c.Count("validate_changed_the_envelope at "+e.Kind+" "+lastName(e.Path), 1)
+	}
 	if o.class != "digest-error" || len(e.Path) > 2 {
 		c.Sample(map[string]any{"edit": where, "validate": o.class, "detail": short(o.detail), "digest_unchanged": o.digestSame,
 			"after_calculate": map[string]any{"error": short(o.calcErr), "digest_same_as_before": o.newSameAsOld, "content_same_as_before": o.newDocSame}})
@@ -1339,6 +1402,9 @@ func judgeOne(c *core.Ctx, b *base, ec *ecase, o outcome) {
 			if !o.valueSame {
 				why = "the document GOBL holds after reading the text differs from the genuine one, but json.Marshal(e.Document) writes the same bytes for both: what the digest is computed from hides the change"
 			}
+		}
+		if o.mutated != "" {
+			why += "; Envelope.Validate changed the document it was validating (" + o.mutated + ")"
 		}
 		c.Fail(cls, where+": the envelope still validates without recalculating: "+why, ec)
 	default: // a validation error raised before verifyDigest is reached
